@@ -1164,6 +1164,7 @@ func (b *builder) compLit(fn *Function, addr Value, e *ast.CompositeLit, isZero 
 				// memclear
 				sb.store(&address{array, e.Lbrace, nil},
 					zeroValue(fn, deref(array.Type())))
+				isZero = true
 			}
 		}
 
@@ -1191,7 +1192,7 @@ func (b *builder) compLit(fn *Function, addr Value, e *ast.CompositeLit, isZero 
 				// backing array is unaliased => storebuf not needed.
 				b.assign(fn, &address{addr: iaddr, pos: pos, expr: e}, e, true, nil)
 			} else {
-				b.assign(fn, &address{addr: iaddr, pos: pos, expr: e}, e, true, sb)
+				b.assign(fn, &address{addr: iaddr, pos: pos, expr: e}, e, isZero, sb)
 			}
 		}
 
